@@ -781,6 +781,7 @@ func runC09(c *Ctx) {
 	r.Floor("use-after-release", nrel, 50, "release sites")
 	c09ResultOwned(c, p)
 	c09CapturedNode(c, p)
+	c09ReleasedPartEscapes(c, p)
 	r.Rule("memoised-node", "a value memoised by sync.OnceValue / OnceValues whose type is an AST node is used only as the argument of a copying function (clone…, copy…, deepCopy…) or in a nil test")
 	if nm := c09MemoisedNode(c, p, p.ModuleFuncs(), nil); nm == 0 {
 		r.OK("memoised-node", "scan", "-", "no AST node is memoised with sync.OnceValue / OnceValues")
